@@ -92,7 +92,10 @@ def model_hash():
 
 
 def proofs_hash():
-    return hash_files(files_under(COQ, (".v",)) + [os.path.join(COQ, "_CoqProject")])
+    """every file of the Coq build (the files listed in _CoqProject)"""
+    proj = os.path.join(COQ, "_CoqProject")
+    listed = [os.path.join(COQ, l.strip()) for l in open(proj) if l.strip().endswith(".v")]
+    return hash_files(sorted(listed) + [proj])
 
 
 def coq_make():
